@@ -635,6 +635,44 @@ theorem inv_flushQueued (cfg : Cfg) (n : Nat) (s : St) (h : Inv s) : Inv (flushQ
       · exact ih _ (inv_deliver cfg _ _ (Inv.of_core rfl h))
 
 
+theorem inv_releaseConn_or (cfg : Cfg) (s : St) (h : Inv s) (ha : activePc s.pc ∨ s.respReleased = true) :
+    Inv (releaseConn cfg s) := by
+  rcases ha with ha | hr
+  · exact inv_releaseConn cfg s h ha
+  · unfold releaseConn; simp [hr]; exact h
+
+theorem inv_peerEof (cfg : Cfg) (s : St) (h : Inv s) : Inv (applyEv cfg s .peerEof) := by
+  simp only [applyEv]
+  split
+  · exact h
+  · obtain ⟨p1, p2, p3, p4, p5, p6, p7⟩ := h
+    constructor <;> simp_all [core, activePc, Pc.isDone]
+
+theorem activePc_of_active {p : Pc} (h : p.active = true) : activePc p := by
+  cases p <;> simp_all [Pc.active, activePc]
+
+theorem inv_lostStep (cfg : Cfg) (s : St) (h : Inv s) : Inv (lostStep cfg s) := by
+  unfold lostStep
+  split
+  · exact h
+  · simp only []
+    have h1 : Inv (peerClosed cfg s) := by
+      obtain ⟨p1, p2, p3, p4, p5, p6, p7⟩ := h
+      unfold peerClosed
+      constructor <;> simp_all [core, activePc, Pc.isDone]
+      intro ho; rcases p6 ho with hh | hh
+      · exact Or.inl hh
+      · exact Or.inr ⟨hh.1, Or.inl hh.2.1, hh.2.2⟩
+    generalize peerClosed cfg s = s1 at *
+    have h2 : Inv (if s1.eof = true ∧ s1.hdrAt.isSome = true ∧ s1.pc.active = true then releaseConn cfg s1 else s1) := by
+      split
+      · rename_i hc; exact inv_releaseConn cfg s1 h1 (activePc_of_active hc.2.2)
+      · exact h1
+    generalize (if s1.eof = true ∧ s1.hdrAt.isSome = true ∧ s1.pc.active = true then releaseConn cfg s1 else s1) = s2 at *
+    split
+    · exact Inv.of_core rfl h2
+    · exact h2
+
 theorem inv_applyEv (cfg : Cfg) (s : St) (ev : Ev) (h : Inv s) : Inv (applyEv cfg s ev) := by
   cases ev with
   | startH => exact Inv.of_core rfl h
@@ -671,6 +709,7 @@ theorem inv_applyEv (cfg : Cfg) (s : St) (ev : Ev) (h : Inv s) : Inv (applyEv cf
       constructor <;> simp_all [core, activePc, Pc.isDone]
     · exact h
   | bytes p => exact inv_deliver cfg s p h
+  | peerEof => exact inv_peerEof cfg s h
   | cancel => exact inv_taskCancel s h
   | cancelLate => exact h
 
@@ -749,7 +788,7 @@ theorem inv_instant (cfg : Cfg) (s : St) (t : Nat) (evs : List Ev) (h : Inv s) :
   have h2 : Inv { advance cfg t 64 s with now := max (advance cfg t 64 s).now t } := Inv.of_core rfl h1
   have h3 := inv_foldEv cfg evs _ h2
   have h4 := inv_fireDue cfg (List.foldl (applyEv cfg) { advance cfg t 64 s with now := max (advance cfg t 64 s).now t } evs).now 8 _ h3
-  have h5 := inv_holderStep cfg _ h4
+  have h5 := inv_lostStep cfg _ (inv_holderStep cfg _ h4)
   split
   · exact inv_taskCancel _ h5
   · exact h5
